@@ -21,6 +21,7 @@ type consState struct {
 	marked        map[uint64]int // location -> times GC set its deleted bit
 	relocations   int64
 	lastRelocSeen int64
+	handedOver    []fsck.Block // every entry ever handed to GC and not yet seen dead
 }
 
 func (r *Runner) cs() *consState {
@@ -49,6 +50,7 @@ func (r *Runner) installConservationHooks() {
 			}
 			r.freeSeen = 0
 			c.pendingBatch = ents
+			c.handedOver = append(c.handedOver, ents...)
 			r.Res.Add("freelist_handovers", 1)
 			r.Res.Add("freelist_entries_handed_over", int64(len(ents)))
 		case "mh.gc.freelist.before-remove-gc":
@@ -169,6 +171,22 @@ func (r *Runner) conservation(l *fsck.Layout, res *fsck.Resolved) {
 		}
 	}
 	c.consumed = nil
+	// Exactly-once presentation, independent of hook placement: once no hand-over file exists any
+	// more, every entry that was ever handed over must have been applied (record dead). A batch that
+	// vanished unapplied (e.g. removed when a cycle was interrupted) is a lost entry.
+	if !l.HasGC {
+		var still []fsck.Block
+		for _, e := range c.handedOver {
+			pr, _, _ := l.PrimRecAt(e.Off)
+			if pr != nil && !pr.Deleted && pr.Complete && pr.Size == e.Size {
+				if _, live := curLoc[e.Off]; !live {
+					r.viol("freelist-handover-lost", "freelist-handover-lost", nil, "entry (%d,%d) was handed over to GC, the hand-over file is gone, but the record is neither marked deleted nor truncated away: the location will never be presented again", e.Off, e.Size)
+					continue
+				}
+			}
+		}
+		c.handedOver = still
+	}
 	for off, n := range c.marked {
 		if n > 1 {
 			r.viol("freelist-double-mark", "freelist-double-mark", nil, "GC set the deleted bit of location %d %d times", off, n)
